@@ -234,7 +234,35 @@ def run_monitor(case):
     for i, ts in enumerate(times):
         # skip samples coinciding with any arrival / start / departure (set-valued, DESIGN 3.5)
         if any(ts in (h["arr"], h["start"], h["dep"]) for h in accepted):
-            classes.add("coincident sample skipped")
+            # set-valued (DESIGN 3.5): the sample may have been taken at any point of the instant's event sequence
+            # [departure of the packet in service] -> [start of the next one], with the instant's arrivals interleaved
+            base = [h for h in accepted if h["arr"] < ts and (h["dep"] is None or h["dep"] > ts)]
+            departing = [h for h in accepted if h["dep"] == ts]
+            arriving = [h for h in accepted if h["arr"] == ts]
+            cands = set()
+            for stage in (0, 1, 2):
+                for na in range(len(arriving) + 1):
+                    held = list(base) + arriving[:na] + (departing if stage == 0 else [])
+                    serving = [h for h in held if h["start"] is not None and (h["start"] < ts or (h["start"] == ts and stage == 2))
+                               and (h["dep"] is None or h["dep"] > ts or (h["dep"] == ts and stage == 0))]
+                    serving = serving[:1]
+                    b = sum(h["size"] for h in held)
+                    w = len(held) - len(serving)
+                    if case["included"]:
+                        cands.add((b, w + len(serving)))
+                    else:
+                        cands.add((b - sum(h["size"] for h in serving), w))
+                    # transient of the same instant: the next packet has been taken from the queue but its transmission has
+                    # not been marked yet (it is counted in the bytes, in neither packet count)
+                    starting = [h for h in held if h["start"] == ts]
+                    if starting and stage >= 1 or (starting and not departing):
+                        cands.add((b, len(held) - 1))
+            if (mon.sizes_byte[i], mon.sizes[i]) not in cands:
+                raise Violation("C09.monitor", f"sample #{i} at t={float(ts)} (an instant with arrivals/departures) is bytes="
+                                               f"{mon.sizes_byte[i]} packets={mon.sizes[i]}; no point of that instant gives it "
+                                               f"(possible: {sorted(cands)})",
+                                "C09.monitor/coincident/" + ("included" if case["included"] else "excluded"))
+            classes.add("coincident sample judged set-valued")
             continue
         held = [h for h in accepted if h["arr"] < ts and (h["dep"] is None or h["dep"] > ts)]
         serving = [h for h in held if h["start"] is not None and h["start"] < ts]
@@ -287,10 +315,10 @@ def analyse_partial(case, entry, out):
 
 
 def monitor_strategy(tier):
-    sizes = st.sampled_from([100, 200, 500, 1000, 1500])
+    sizes = st.sampled_from([100, 200, 500, 1000, 1500, 64, 128, 256, 512, 1024])
     wl = netlab.workload([0, 1], n_max=25, exact=True, sizes=sizes, min_size=4, late=False)
-    gaps = st.lists(st.sampled_from([1 / 4096, 3 / 4096, 1 / 8 + 1 / 4096, 0.5 + 1 / 4096, 1 + 3 / 4096, 1 / 64, 2 + 1 / 4096]),
-                    min_size=3, max_size=25)
+    gaps = st.lists(st.sampled_from([1 / 4096, 3 / 4096, 1 / 8 + 1 / 4096, 0.5 + 1 / 4096, 1 + 3 / 4096, 1 / 64, 2 + 1 / 4096,
+                                     1 / 8, 1 / 4, 0.5, 1, 1 / 16]), min_size=3, max_size=25)
     return st.fixed_dictionaries({
         "exact": st.just(True), "rate": netlab.exact_rate(3, 12), "wl": wl, "eid": st.just("pm"),
         "limit_bytes": st.just(True), "qlimit": st.sampled_from([None, 5000, 100000]),
@@ -440,8 +468,8 @@ PROP = Property(
         Facet("port", port_strategy, run_port, quick=1500, thorough=8000, exhaustive=port_lattice,
               essential=["accepted", "refused", "byte decision within 1 of the limit", "packet decision within 1 of the limit",
                          "rate 0", "no limit", "queued behind another packet"]),
-        Facet("monitor", monitor_strategy, run_monitor, quick=400, thorough=2500,
-              essential=["sample while transmitting", "sample with a queue"]),
+        Facet("monitor", monitor_strategy, run_monitor, quick=1500, thorough=6000,
+              essential=["sample while transmitting", "sample with a queue", "coincident sample judged set-valued"]),
         Facet("red", red_strategy, run_red, quick=600, thorough=4000,
               essential=["region below min", "region between min and max", "region at or above qlimit",
                          "region average exactly on a threshold"]),
